@@ -71,6 +71,9 @@ def substitute(e: T, mapping):
 def run(ctx) -> Report:
     rep = Report("C21")
     prog = ctx.prog
+    # the memo-key clause first: it needs no interpretation, and what it finds is reported even if a later clause cannot follow the code
+    from ..memokey import check_memo_keys, memo_rule  # noqa: F401
+    memo_rule(ctx, rep, "C21-key", ['ufl.algorithms.replace'])
     cls = prog.get_class(CLS)
     ctx.crosscheck_dispatch({"Replacer"})
     terms, exprs = corpus.build()
@@ -163,7 +166,6 @@ def run(ctx) -> Report:
     rep.assumptions = ["images without free indices", "traversal driver model of sa/passlift.py", "dict lookup of terminals by object identity (UFL: structural equality of terminals)"]
     from ..memokey import memo_rule
 
-    memo_rule(ctx, rep, "C21-key", ['ufl.algorithms.replace'])
     return rep
 
 
